@@ -6,7 +6,7 @@
     Instances: the printed tokens of a stream selector (label names may be keywords that are not function names: D29) and of a
     pipeline over the stage fragment of PipelineP are such lists; composing with the parser theorems gives
     text -> matchers (selector) and text -> ELog selector stages (whole log queries through parse_tokens). *)
-From LogQLV Require Import Base.Bytes Base.TimeFmt Base.FloatX Model.Tables Model.Syntax Model.Parser Model.Lexer Proofs.ParserP Proofs.PipelineP Proofs.LogRangeP Proofs.QueryP Proofs.LexerP Proofs.LexerTightP.
+From LogQLV Require Import Base.Bytes Base.TimeFmt Base.FloatX Model.Tables Model.Syntax Model.Parser Model.Lexer Proofs.ParserP Proofs.PredP Proofs.PipelineP Proofs.LogRangeP Proofs.QueryP Proofs.LexerP Proofs.LexerTightP.
 From Coq Require Import Lia.
 
 (** facts about the keyword table of the tree under verification (decided by computation on Model/Tables.v, which is
@@ -240,12 +240,24 @@ Section LexParse.
   Definition text_pairs_str (ts : list (bytes * bytes)) : Prop := Forall (fun p => text_name (fst p) /\ forallb printable (snd p) = true) ts.
   Definition text_pairs_name (rs : list (bytes * bytes)) : Prop := Forall (fun p => text_name (fst p) /\ text_name (snd p)) rs.
 
+  (** label-filter predicates that can be written in the lexer fragment: string matchers and ip() comparisons, combined freely
+      (numeric literals are outside the fragment) *)
+  Fixpoint text_pred (p : pred) : Prop :=
+    match p with
+    | PMatch m => text_name (m_label m) /\ forallb printable (m_value m) = true
+    | PIP l _ pat => text_name l /\ forallb printable pat = true
+    | PParen a => text_pred a
+    | PBin a _ b => text_pred a /\ text_pred b
+    | _ => False
+    end.
+
   Definition text_stage (s : stage) : Prop :=
     match s with
     | SLine _ v _ | SPattern v | SLineFormat v => forallb printable v = true
     | SUnpack | SDecolorize => True
     | SDrop ls _ | SKeep ls _ | SDistinct ls | SJson ls _ | SLogfmt ls _ => text_names ls
     | SLabelFormat rs ts => text_pairs_name rs /\ text_pairs_str ts
+    | SLabelFilter p => text_pred p
     | _ => False
     end.
 
@@ -297,7 +309,30 @@ Section LexParse.
     - cbn [map]. apply closed_cons; [reflexivity|]. apply closed_cons; [exact Hf|exact B2].
   Qed.
 
-  Lemma stage_toks s : simple_stage re_names s -> text_stage s ->
+  Notation print_pred0 := (print_pred anch re_names (fun _ => []) (fun _ => []) (fun _ => [])).
+
+  Lemma pred_toks p : wf_pred anch p -> text_pred p -> Forall lexable (print_pred0 p) /\ closed (map ltok_of (print_pred0 p)).
+  Proof.
+    induction p as [m|l o v|l o ns|l o n|l o pat|a IHa o b IHb|a IHa]; cbn [wf_pred text_pred print_pred]; intros Hw Ht; try contradiction.
+    - destruct Ht as [Hl Hv]. destruct (mop_lex (m_op m)) as [O1 O2]. split.
+      + fl; [apply lexable_name; exact Hl|exact O1|apply lexable_str; exact Hv].
+      + cbn [map]. apply closed_cons; [reflexivity|]. apply closed_cons; [exact O2|]. apply closed_one. reflexivity.
+    - destruct Ht as [Hl Hv]. split.
+      + fl; [apply lexable_name; exact Hl|destruct Hw as [-> | ->]; punct_lex|punct_lex|punct_lex|apply lexable_str; exact Hv|punct_lex].
+      + cbn [map]. apply closed_cons; [reflexivity|]. apply closed_cons; [destruct Hw as [-> | ->]; reflexivity|].
+        change (ltok_of (punct TIP)) with (LFun TIP (spelling TIP)). change (ltok_of (punct TOpenParen)) with open_paren.
+        apply closed_fun; [reflexivity|reflexivity|]. apply closed_cons; [reflexivity|]. apply closed_one. reflexivity.
+    - destruct Ht as [Hta Htb].
+      assert (Hab : wf_pred anch a /\ wf_pred anch b /\ (o = OpAnd \/ o = OpOr)) by (destruct o; try contradiction; repeat split; try tauto).
+      destruct Hab as [Hwa [Hwb Ho]]. destruct (IHa Hwa Hta) as [A1 A2]. destruct (IHb Hwb Htb) as [B1 B2]. split.
+      + apply Forall_app. split; [exact A1|]. constructor; [destruct Ho as [-> | ->]; punct_lex|exact B1].
+      + rewrite map_app. apply closed_app; [exact A2|]. cbn [map]. apply closed_cons; [destruct Ho as [-> | ->]; reflexivity|exact B2].
+    - destruct (IHa Hw Ht) as [A1 A2]. split.
+      + constructor; [punct_lex|]. apply Forall_app. split; [exact A1|]. fl. punct_lex.
+      + cbn [map]. apply closed_cons; [reflexivity|]. rewrite map_app. apply closed_app; [exact A2|]. apply closed_one. reflexivity.
+  Qed.
+
+  Lemma stage_toks s : simple_stage anch re_names s -> text_stage s ->
     Forall lexable (print_stage anch re_names s) /\ closed (map ltok_of (print_stage anch re_names s)).
   Proof.
     intros Hsimple Ht. destruct s as [o v ip|ls es|ls es|src mp| |p| |p| |pr|rs ts|ls ms|ls ms|ls]; cbn [text_stage simple_stage print_stage] in *; try contradiction.
@@ -313,6 +348,9 @@ Section LexParse.
     - split; [fl; punct_lex|]. cbn [map]. apply closed_cons; [reflexivity|]. apply closed_one. reflexivity.
     - split; [fl; [punct_lex|punct_lex|apply lexable_str; exact Ht]|]. cbn [map]. apply closed_cons; [reflexivity|]. apply closed_cons; [reflexivity|]. apply closed_one. reflexivity.
     - split; [fl; punct_lex|]. cbn [map]. apply closed_cons; [reflexivity|]. apply closed_one. reflexivity.
+    - destruct (pred_toks pr Hsimple Ht) as [B1 B2]. split.
+      + constructor; [punct_lex|exact B1].
+      + cbn [map]. apply closed_cons; [reflexivity|exact B2].
     - destruct Ht as [Hr Hts]. destruct (lf_toks rs ts Hr Hts) as [B1 B2]. split.
       + constructor; [punct_lex|]. constructor; [punct_lex|exact B1].
       + cbn [map]. apply closed_cons; [reflexivity|]. apply closed_cons; [reflexivity|exact B2].
@@ -321,7 +359,7 @@ Section LexParse.
     - apply kw_names_toks; [punct_lex|reflexivity|exact Ht].
   Qed.
 
-  Lemma stages_toks sts : Forall (simple_stage re_names) sts -> Forall text_stage sts ->
+  Lemma stages_toks sts : Forall (simple_stage anch re_names) sts -> Forall text_stage sts ->
     Forall lexable (print_stages anch re_names sts) /\ closed (map ltok_of (print_stages anch re_names sts)).
   Proof.
     induction sts as [|s t IH]; intros Hs Ht; [split; [constructor|apply closed_nil]|].
@@ -331,7 +369,7 @@ Section LexParse.
     - rewrite map_app. apply closed_app; assumption.
   Qed.
 
-  Lemma chain_simple sts : forall r, chain_ok anch re_names sts r -> Forall (simple_stage re_names) sts.
+  Lemma chain_simple sts : forall r, chain_ok anch re_names sts r -> Forall (simple_stage anch re_names) sts.
   Proof. induction sts as [|s t IH]; intros r H; [constructor|]. destruct H as [H1 [_ H3]]. constructor; [exact H1|apply (IH r); exact H3]. Qed.
 
   (** from the text of a whole log query to its tree, through parse_tokens (logql.Parse after tokenizing) *)
